@@ -371,10 +371,51 @@ def _r2(chk: Check, R2: str, scopes: str) -> None:
             if isinstance(n, (ast.With, ast.AsyncWith)):
                 for it in n.items:
                     withs.add(it.context_expr)
+        # a helper that only hands the context manager on (`return names.make_scope(b)`) is as good as the call itself when
+        # every use of the helper, package-wide, is the context expression of a with statement
+        returned_by: Dict[int, str] = {}
+        for fn in ast.walk(m.tree):
+            if isinstance(fn, ast.FunctionDef):
+                for st_ in ast.walk(fn):
+                    if isinstance(st_, ast.Return) and isinstance(st_.value, ast.Call) and isinstance(st_.value.func, ast.Attribute) \
+                            and st_.value.func.attr == 'make_scope':
+                        returned_by[id(st_.value)] = fn.name
+
+        def wrapper_only_in_with(name: str) -> bool:
+            uses = 0
+            for m2 in F.modules.values():
+                if '.ply' in m2.name:
+                    continue
+                w2 = set()
+                calls2 = set()
+                for n2 in ast.walk(m2.tree):
+                    if isinstance(n2, (ast.With, ast.AsyncWith)):
+                        for it in n2.items:
+                            w2.add(id(it.context_expr))
+                    if isinstance(n2, ast.Call):
+                        calls2.add(id(n2.func))
+                for n2 in ast.walk(m2.tree):
+                    is_ref = (isinstance(n2, ast.Name) and n2.id == name and isinstance(n2.ctx, ast.Load)) or \
+                             (isinstance(n2, ast.Attribute) and n2.attr == name and isinstance(n2.ctx, ast.Load))
+                    if not is_ref:
+                        continue
+                    if id(n2) not in calls2:
+                        return False            # handed around as a value
+                    uses += 1
+                for n2 in ast.walk(m2.tree):
+                    if isinstance(n2, ast.Call) and ((isinstance(n2.func, ast.Name) and n2.func.id == name) or
+                                                     (isinstance(n2.func, ast.Attribute) and n2.func.attr == name)) and id(n2) not in w2:
+                        return False
+            return uses > 0
         for n in ast.walk(m.tree):
             if isinstance(n, ast.Call) and isinstance(n.func, ast.Attribute) and n.func.attr == 'make_scope':
-                chk.require(n in withs, R2, 'use of make_scope: `%s`' % norm(n), '%s:%d' % (m.rel, n.lineno),
-                            'context expression of a with statement' if n in withs else
+                ok_ = n in withs
+                via = ''
+                if not ok_ and id(n) in returned_by and wrapper_only_in_with(returned_by[id(n)]):
+                    ok_ = True
+                    via = ' (returned by %s, which is only ever called as the context expression of a with statement)' % returned_by[id(n)]
+                chk.require(ok_, R2, 'use of make_scope: `%s`' % norm(n), '%s:%d' % (m.rel, n.lineno),
+                            'context expression of a with statement' + via if ok_ else
                             'make_scope(...) called outside a with statement: nothing enters/exits the scope')
 
 
